@@ -4,3 +4,5 @@
 mod stubs;
 #[cfg(kani)]
 mod c19;
+#[cfg(kani)]
+mod c18;
